@@ -26,6 +26,8 @@ type schemaValidationSettings struct {
 
 	onceSettingDefaults sync.Once
 	defaultsSet         func()
+	// schemas whose default is the value being visited, with the nesting count
+	defaultsInProgress map[*Schema]int
 
 	customizeMessageError func(err *SchemaError) string
 }
